@@ -62,6 +62,9 @@ type caseT struct {
 	Coefs   []rat    `json:"coefs"`
 	Alpha1  rat      `json:"alpha1"`
 	Classes []string `json:"classes"`
+	Cbox    rat      `json:"cbox"`  // feasible interval [0, cbox] (constraint option "box")
+	Chalf   rat      `json:"chalf"` // feasible interval [0, chalf] (constraint option "half")
+	Lambdas []rat    `json:"lambdas"`
 	// channels
 	Name  string  `json:"name"`
 	Nx    int     `json:"nx"`
@@ -112,7 +115,7 @@ func softplus(a ConstScalar) *Real64 { // log(1 + exp(a))
 // objective builds the scalar objective of a case from the printed parameters.
 func (c *caseT) objective() scalarF {
 	switch c.Kind {
-	case "quad":
+	case "quad", "quadhard":
 		return func(x ConstVector) (MagicScalar, error) {
 			var r ConstScalar = cst(0)
 			for i := 0; i < c.N; i++ {
